@@ -368,6 +368,17 @@ def rule_wrappers(facts):
     return r
 
 
+def _staging(facts):
+    """'No sequence of calls panics' and 'a failed write stays failed' both lean on the staging bookkeeping of write being
+    exact (C05.R3): a wrong fill position panics on the next slice or silently fails a valid stream."""
+    from rules import C05
+    r = C05.rule_staging(facts)
+    r.rule = "C16.R5"
+    for f in r.findings:
+        f.rule = "C16.R5"
+    return r
+
+
 def run(ctx, t0):
     facts = ctx.facts()
     tname, field = latch_field(facts)
@@ -379,7 +390,7 @@ def run(ctx, t0):
     else:
         r1, r2 = rule_write(facts, tname, field)
         r2 = rule_finish_flush(facts, tname, field, r2)
-        rules += [r1, r2, rule_completed(facts), rule_size_plumbing(facts), rule_wrappers(facts)]
+        rules += [r1, r2, rule_completed(facts), rule_size_plumbing(facts), rule_wrappers(facts), _staging(facts)]
     expl = ("Static typestate analysis of the Option latch of the streaming decoder over the MIR control-flow graph "
             "(take / refill / None-assignment as transfer functions; checked at every Err source), path checks on "
             "the None arms of write and finish, and the position/shape of the size test of the shared decoding loop. "
